@@ -11,7 +11,7 @@ repo = sys.argv[1] if len(sys.argv) > 1 else "/repo"
 base = json.load(open("/root/.vp/BASELINE.json"))
 with tempfile.TemporaryDirectory() as tmp:
     xml = os.path.join(tmp, "j.xml")
-    env = dict(os.environ, PYTHONDONTWRITEBYTECODE="1")
+    env = dict(os.environ, PYTHONDONTWRITEBYTECODE="1", OMP_NUM_THREADS="1", OPENBLAS_NUM_THREADS="1", MKL_NUM_THREADS="1")
     env.pop("VERDE_VERIF", None)
     subprocess.run(["/venv/bin/python", "-m", "pytest", "-q", "-p", "no:cacheprovider", "--timeout=900", "-n", "8",
                     "--continue-on-collection-errors", "--junitxml=" + xml], cwd=repo, env=env, capture_output=True)
